@@ -66,11 +66,20 @@ Fixpoint enc_labels (tbl : list str) (ls : list label) : list str * list ref :=
 
 Definition enc_cnt (c : cnt) : wcnt := match c with Some x => x | None => (true, 0%N) end.
 
+(* the zero count goes on the arm that matches the count, read as the protobuf
+   path reads it: GetZeroCountFloat / GetZeroCountInt are 0 when the oneof is
+   unset or holds the other type *)
+Definition enc_zero_count (c zc : cnt) : wcnt :=
+  match c with
+  | Some (false, _) => (false, match zc with Some (false, v) => v | _ => 0%N end)
+  | _ => (true, match zc with Some (true, v) => v | _ => 0%N end)
+  end.
+
 (* marshalHistogram: custom values are not part of the schema *)
 Definition enc_hist (h : in_hist) : wire_hist :=
   match h with
   | (c, s, sc, zt, zc, ns, nd, nc, ps, pd, pc, r, t, _custom) =>
-      (enc_cnt c, s, sc, zt, enc_cnt zc, ns, nd, nc, ps, pd, pc, r, t)
+      (enc_cnt c, s, sc, zt, enc_zero_count c zc, ns, nd, nc, ps, pd, pc, r, t)
   end.
 
 Fixpoint enc_exemplars (tbl : list str) (es : list in_exemplar) : list str * list wire_exemplar :=
@@ -136,16 +145,17 @@ Definition sym (syms : list str) (i : N) : str := nth (N.to_nat i) syms [].
 Definition dec_labels (syms : list str) (rs : list ref) : list label :=
   map (fun r => (sym syms (fst r), sym syms (snd r))) rs.
 
-(* readHistogram; None = the generated union accessor panics ("Which() != ...") *)
+(* readHistogram with zeroCountInt / zeroCountFloat: a zero count on the other
+   arm of the union reads as 0 (the generated accessor is never called on the
+   wrong arm). The result type stays an option (None = panic) so that the
+   totality of decoding is a theorem, not a typing accident. *)
 Definition dec_hist (w : wire_hist) : option out_hist :=
   match w with
   | (c, s, sc, zt, zc, ns, nd, nc, ps, pd, pc, r, t) =>
       if fst c then
-        if fst zc then Some (true, r, snd c, s, sc, zt, snd zc, ps, ns, pd, nd, [], [], t, [])
-        else None
+        Some (true, r, snd c, s, sc, zt, (if fst zc then snd zc else 0%N), ps, ns, pd, nd, [], [], t, [])
       else
-        if fst zc then None
-        else Some (false, r, snd c, s, sc, zt, snd zc, ps, ns, [], [], pc, nc, t, [])
+        Some (false, r, snd c, s, sc, zt, (if fst zc then 0%N else snd zc), ps, ns, [], [], pc, nc, t, [])
   end.
 
 Fixpoint opt_map {A B} (f : A -> option B) (l : list A) : option (list B) :=
@@ -178,20 +188,20 @@ Definition decode (w : wire) : option (list (str * list out_series)) :=
   end.
 
 (* ---- specification: what "the same series" means ---- *)
-(* a histogram is an integer histogram (count and zero count integers, or
-   unset = 0) or a float histogram (count and zero count floats); anything else
-   is malformed. The decoded form keeps deltas for integer and counts for float
-   histograms, and the custom bucket boundaries. *)
+(* the reading of a prompb.Histogram that the protobuf path uses
+   (IsFloatHistogram, HistogramProtoToHistogram, FloatHistogramProtoToFloatHistogram):
+   float iff the count is a float; count / zero count are the value of the
+   matching oneof arm, 0 otherwise; integer histograms keep the deltas, float
+   histograms the counts; custom bucket boundaries are kept. *)
 Definition spec_hist (h : in_hist) : option out_hist :=
   match h with
   | (c, s, sc, zt, zc, ns, nd, nc, ps, pd, pc, r, t, custom) =>
-      match c, zc with
-      | Some (true, cv), Some (true, zv) => Some (true, r, cv, s, sc, zt, zv, ps, ns, pd, nd, [], [], t, custom)
-      | Some (true, cv), None => Some (true, r, cv, s, sc, zt, 0%N, ps, ns, pd, nd, [], [], t, custom)
-      | None, Some (true, zv) => Some (true, r, 0%N, s, sc, zt, zv, ps, ns, pd, nd, [], [], t, custom)
-      | None, None => Some (true, r, 0%N, s, sc, zt, 0%N, ps, ns, pd, nd, [], [], t, custom)
-      | Some (false, cv), Some (false, zv) => Some (false, r, cv, s, sc, zt, zv, ps, ns, [], [], pc, nc, t, custom)
-      | _, _ => None
+      match c with
+      | Some (false, cv) =>
+          Some (false, r, cv, s, sc, zt, match zc with Some (false, zv) => zv | _ => 0%N end, ps, ns, [], [], pc, nc, t, custom)
+      | _ =>
+          Some (true, r, match c with Some (true, cv) => cv | _ => 0%N end, s, sc, zt,
+                match zc with Some (true, zv) => zv | _ => 0%N end, ps, ns, pd, nd, [], [], t, custom)
       end
   end.
 
@@ -263,6 +273,6 @@ Definition pred_ok (c : case) : bool :=
       negb panicked &&
       match spec_request req with
       | Some want => list_eqb tenant_eqb decoded want
-      | None => true           (* malformed histogram: only "no panic" is demanded *)
+      | None => false
       end
   end.
